@@ -326,10 +326,14 @@ func notifyNameChange(pn *pathNode) {
 	// childMu is held any more: dropping a last reference unregisters it
 	// from its parent's node.
 	var pinned []*fidRef
+	defer func() {
+		// Deferred, so that a panic in a Renamed callback does not leak
+		// the pins taken so far.
+		for _, ref := range pinned {
+			ref.DecRef()
+		}
+	}()
 	notifyNameChangePinned(pn, &pinned)
-	for _, ref := range pinned {
-		ref.DecRef()
-	}
 }
 
 func notifyNameChangePinned(pn *pathNode, pinned *[]*fidRef) {
